@@ -62,6 +62,23 @@ class Int(Gen):
         return v
 
 
+class EnumInt(Gen):
+    """A symbolic member of an int-valued Enum/Flag class (integer value in [lo, hi])."""
+
+    def __init__(self, cls: Any, lo: int, hi: int, scale: int = 1) -> None:
+        self.cls, self.lo, self.hi, self.scale = cls, lo, hi, scale
+
+    def make(self, name: str, b: "Builder") -> Any:
+        v = sym.var_int(name)
+        b.assume(v >= self.lo)
+        b.assume(v <= self.hi)
+        return v * self.scale if self.scale != 1 else v
+
+    def to_member(self, value: int) -> Any:
+        cls = resolve(self.cls) if isinstance(self.cls, str) else self.cls
+        return cls(value)
+
+
 @dataclass
 class Bool(Gen):
     def make(self, name: str, b: "Builder") -> Any:
@@ -186,6 +203,7 @@ class Contract:
     ground: Callable[[], Any] | None = None  # G-mode: finite domain enumerated completely (list of input dicts)
     ground_chunks: int = 1
     ground_interp_stride: int = 101
+    vc_chunks: int = 1  # symbolic contracts: discharge the VCs in this many parallel jobs (each re-explores the paths)
     crosscheck: int = 12
     setup_in_crosscheck: bool = False
 
